@@ -43,8 +43,11 @@ def render_tokens(toks, rng, newline=False):
                 parts.append(rng.choice(["QX", "ZK", "J"]))
     sep = " "
     text = parts[0] if parts else ""
-    for p in parts[1:]:
-        text += ("\n" if newline and rng.random() < 0.3 else sep) + p
+    for j, p in enumerate(parts[1:], start=1):
+        # (the library's "of / in before a section" rule looks for ' of' with a blank, so a connector token is
+        #  always preceded by a blank - lexical side condition of the OF token)
+        is_of = toks[j]["t"] == "TXT" and toks[j]["k"] == "OF"
+        text += ("\n" if newline and not is_of and rng.random() < 0.3 else sep) + p
     return text, markers
 
 
